@@ -30,7 +30,12 @@ CFG = {
             "352, 420, ASCII and 2/3/4-byte fills, sorted first / in the middle / last, several long names, only "
             "long names), both orders, every limit 1..n+1 and absent: a page that ends on a name whose token "
             "cannot be issued must be answered with an explicit error status (the tree answers 500) after every "
-            "earlier page was delivered intact - an early end without token is a violation. large-scope slice (deterministic, tags large:*): collections of 255/256/257 items (integer keys "
+            "earlier page was delivered intact - an early end without token is a violation. wide-key cases: two more endpoints over BTreeSet<u128> and BTreeSet<i128> with keys straddling "
+            "the 64-bit bounds (0, 1, u64::MAX-1 .. u64::MAX+2, 2^100, u128::MAX-1, u128::MAX; i128::MIN, i64::MIN-1, "
+            "i64::MIN, -1, 0, 1, i64::MAX, i64::MAX+1, u64::MAX, 2^64, i128::MAX), both orders, limits absent, 1, 2, "
+            "3, n-1, n, n+1; keys abstracted to ranks, the judge checks the list ascending over Z and its codec "
+            "writes the key as the JSON number serde_json writes (NNum), tokens compared byte for byte. "
+            "large-scope slice (deterministic, tags large:*): collections of 255/256/257 items (integer keys "
             "incl. keys ending at u64::MAX, and generated string keys) x limits {absent, 1, 255, 256, 257, 10000, "
             "2^32-1} judged page by page; 9999/10000/10001 items x {absent, 10000, 2^32-1}, 10001 string keys, and "
             "limit 1 over 2049 integer / 1025 string keys (2050 / 1026 requests in one scan); thorough adds 20001, "
